@@ -328,6 +328,22 @@ let dispatch (req : Sexp.t) : Sexp.t =
               out := L [put_list (fun (k, x) -> L [put_bytes k; put_fval x]) o; put_list put_bytes v; put_pres (clap_accepts v)] :: !out
             end; incr i) (all_opts fs);
         L (List.rev !out)
+      | "wrapper_rejected", [name; limit] ->
+        (* the whole option space of one builder: the records whose vector the grammar model rejects, one per distinct vector *)
+        let name = get_bytes name and limit = get_int limit in
+        let ((_, b), fs) = List.find (fun ((n, _), _) -> n = name) gen_builders in
+        let seen = Hashtbl.create 64 and out = ref [] and n = ref 0 in
+        List.iter (fun o ->
+            if !n < limit then begin
+              let v = b o in
+              match clap_accepts v with
+              | POk _ -> ()
+              | r -> if not (Hashtbl.mem seen v) then begin
+                    Hashtbl.add seen v ();
+                    out := L [put_list (fun (k, x) -> L [put_bytes k; put_fval x]) o; put_list put_bytes v; put_pres r] :: !out;
+                    incr n end
+            end) (all_opts fs);
+        L (List.rev !out)
       | "spec_apply", [p; t] -> put_fs (spec_apply (get_aplan p) (get_fs t))
       | "serde_plan", [p] ->
         let p = get_plan p in
